@@ -48,7 +48,7 @@ KEY_KIND = {'C09': ('remove_node', 'regenerate', 'add_node', 'remove_attacker'),
                                           'add_attackers_late'),
             'C12': ('surface_update',), 'C13': ('prune',), 'C14': ('copy',)}
 
-TTCS = [None, None, {'type': 'function', 'name': 'Enabled', 'arguments': []},
+TTCS = [None, None, {}, {'type': 'function', 'name': 'Enabled', 'arguments': []},
         {'type': 'function', 'name': 'Disabled', 'arguments': []},
         {'type': 'function', 'name': 'Exponential', 'arguments': [0.1]},
         {'type': 'function', 'name': 'Bernoulli', 'arguments': [0.5]},
@@ -169,6 +169,7 @@ class Slot:
         self.surface = {}   # attacker handle -> maintained surface list (real nodes) or None
         self.copied_from = None
         self.mutated_since_copy = False
+        self.uncopyable = False
 
 
 class GraphWorld(BaseWorld):
@@ -422,6 +423,11 @@ class GraphWorld(BaseWorld):
             self.fail(clause, f'after {where}: observing the graph raised {o.exc!r}')
         got = json.loads(canon(o.value))
         exp = json.loads(canon(slot.ref.observe()))
+        if slot.uncopyable:
+            # extras hold a value that has no stable representation: not compared
+            for side in (got, exp):
+                for n_ in side['nodes']:
+                    n_['extras'] = None
         self._state_digest = digest([self._state_digest, exp])
         if got != exp:
             # attribute the difference to the clause family that owns it
@@ -439,6 +445,12 @@ class GraphWorld(BaseWorld):
                       + world_m._obs_diff(exp, got))
 
     def check_all(self, where, only=None):
+        if self.prop == 'C14' and only is not None:
+            # what C14 is about first: nothing done to one graph shows in another one
+            for i in self.live_slots():
+                if i != only:
+                    self.check_ref(self.slots[i], f'{where} [graph {i}, not the one acted on]',
+                                   'C14.independent')
         for i in self.live_slots():
             if only is not None and i != only and self.prop != 'C14':
                 # other graphs cannot have changed unless something is shared; checking
@@ -481,10 +493,10 @@ class GraphWorld(BaseWorld):
         d = {'type': typ, 'ttc': copy.deepcopy(rng.choice(TTCS)),
              'tags': sorted(rng.sample(TAG_POOL, rng.choice([0, 0, 1, 2]))),
              'extras': copy.deepcopy(rng.choice(NODE_EXTRAS)),
-             'mitre': rng.choice([None, None, 'T1078'])}
+             'mitre': rng.choice([None, None, 'T1078', ''])}
         if typ == 'defense':
             d['defense_status'] = rng.choice([0.0, 1.0, 0.5, 1.0, 0.0])
-            d['ttc'] = copy.deepcopy(rng.choice(TTCS[:4]))
+            d['ttc'] = copy.deepcopy(rng.choice(TTCS[:5]))
         if typ in ('exist', 'notExist'):
             d['existence_status'] = rng.random() < 0.5
             d['ttc'] = None
@@ -574,6 +586,8 @@ class GraphWorld(BaseWorld):
         entry = [h for h in reached if rng.random() < 0.7]
         if reached and rng.random() < 0.15:
             reached = reached + [rng.choice(reached)]       # the same step named twice
+        if s.ref.order and rng.random() < 0.12:
+            reached, entry = [], [rng.choice(s.ref.order)]  # entry points only, nothing reached
         bad = None
         if reached and rng.random() < 0.15 and not self.guard('add_attacker_unknown_node'):
             bad = rng.choice(['reached', 'entry'])
@@ -650,6 +664,8 @@ class GraphWorld(BaseWorld):
 
     def gen_saveload(self, rng, gi):
         s = self.slots[gi]
+        if s.uncopyable:
+            return None
         fmt = 'yml' if rng.random() < self.cfg.get('p_yaml', 0.2) else 'json'
         with_model = s.ref.has_model and rng.random() < 0.6
         fault = None
@@ -727,6 +743,8 @@ class GraphWorld(BaseWorld):
                 what = 'extras'
         if what == 'ttc' and self.guard('ttc_shared_by_copy'):
             what = 'tags'
+        if self.prop == 'C14' and rng.random() < 0.08:
+            what = 'uncopyable'
         return {'op': 'edit_inplace', 'g': gi, 'n': h, 'what': what,
                 'value': rng.choice(['zz', 'q1', 'edited'])}
 
@@ -879,6 +897,8 @@ class GraphWorld(BaseWorld):
             self.fail('C11.attach', f'{where} raised {o.exc!r}')
         new = list(s.g.attackers)[before:]
         self.count('oracle:C11.attach')
+        if len(new) != len(mref.attacker_order) and 'C11' not in self.armed:
+            raise SetupRejected('desync:C11.attach')
         if len(new) != len(mref.attacker_order):
             self.fail('C11.attach', f'{where} added {len(new)} attackers, the model has '
                                     f'{len(mref.attacker_order)}')
@@ -902,6 +922,8 @@ class GraphWorld(BaseWorld):
             rid = {id(n): h for h, n in s.nmap.items()}
             for label, real_list, exp_list in (('reached steps', real.reached_attack_steps, ra.reached),
                                                ('entry points', real.entry_points, ra.entry)):
+                if 'C11' not in self.armed:
+                    break           # the family the check is about reports first (check_all below)
                 got = [rid.get(id(n)) for n in real_list]
                 if None in got:
                     self.fail('C11.attach', f'{where}: {label} of attacker {ma.name!r} contain a '
@@ -934,15 +956,20 @@ class GraphWorld(BaseWorld):
         att = self.Attacker(name=op['name'], entry_points=[], reached_attack_steps=[])
         kw = {'entry_points': [s.ref.nodes[h].id for h in entry],
               'reached_attack_steps': [s.ref.nodes[h].id for h in reached]}
+        if not reached and op.get('omit_empty', True):
+            # the way a caller writes it: no reached steps -> argument left out
+            del kw['reached_attack_steps']
+            if not entry:
+                del kw['entry_points']
         if kid is not None:
             kw['attacker_id'] = kid
-        where = f'add_attacker({op["name"]!r}, id={kid}, reached={kw["reached_attack_steps"]})'
+        where = f'add_attacker({op["name"]!r}, id={kid}, reached={kw.get("reached_attack_steps", "(omitted)")})'
         if op.get('bad_then_retry') and not in_use:
             # a refused call (unknown node id after valid ones), then the same attacker
             # object is offered again with the corrected lists
             badkw = {k_: list(v) if isinstance(v, list) else v for k_, v in kw.items()}
             key = 'reached_attack_steps' if op['bad_then_retry'] == 'reached' else 'entry_points'
-            badkw[key] = list(badkw[key]) + [987654]
+            badkw[key] = list(badkw.get(key, [])) + [987654]
             o = call(s.g.add_attacker, att, **badkw)
             self.count('fault:rejected_attacker_unknown_node')
             if not o.raised:
@@ -1159,11 +1186,16 @@ class GraphWorld(BaseWorld):
         if len(self.live_slots()) >= 4:
             raise Unresolvable()
         o = call(copy.deepcopy, s.g)
+        if o.raised and s.uncopyable:
+            # a value that cannot be copied: refusing the whole copy is fine
+            self.count('probe:copy_refused_uncopyable_value')
+            return 'refused'
         if o.raised:
             self.fail('C14.equal', f'copy.deepcopy(graph) raised {o.exc!r}')
         g2 = o.value
         s2 = Slot(g2, s.ref.clone(), s.kind)
         s2.copied_from = op['g']
+        s2.uncopyable = s.uncopyable
         # handles of the copy: same local handles, objects by position
         if len(g2.nodes) != len(s.g.nodes) or len(g2.attackers) != len(s.g.attackers):
             self.fail('C14.equal', f'copy has {len(g2.nodes)} nodes / {len(g2.attackers)} attackers, '
@@ -1198,31 +1230,33 @@ class GraphWorld(BaseWorld):
         # disjointness
         self.count('oracle:C14.disjoint')
         orig_objs = {}
+        def containers(v, label, out):
+            """Every list / dict reachable inside a node-owned value."""
+            if isinstance(v, dict):
+                out.append((v, label))
+                for kk, vv in v.items():
+                    containers(vv, f'{label}[{kk!r}]', out)
+            elif isinstance(v, list):
+                out.append((v, label))
+                if not v or not isinstance(v[0], self.AttackGraphNode | self.Attacker):
+                    for i_, vv in enumerate(v):
+                        containers(vv, f'{label}[{i_}]', out)
+            return out
         for n in s.g.nodes:
             orig_objs[id(n)] = f'node {n.full_name}'
             for attr in ('children', 'parents', 'compromised_by', 'tags', 'extras', 'ttc'):
-                v = getattr(n, attr)
-                if isinstance(v, (list, dict)):
-                    orig_objs[id(v)] = f'{attr} of {n.full_name}'
-            if isinstance(n.ttc, dict):
-                for kk, vv in n.ttc.items():
-                    if isinstance(vv, (list, dict)):
-                        orig_objs[id(vv)] = f'ttc[{kk}] of {n.full_name}'
+                for v, label in containers(getattr(n, attr), attr, []):
+                    orig_objs[id(v)] = f'{label} of {n.full_name}'
         for a_ in s.g.attackers:
             orig_objs[id(a_)] = f'attacker {a_.name}'
             orig_objs[id(a_.entry_points)] = f'entry_points of {a_.name}'
             orig_objs[id(a_.reached_attack_steps)] = f'reached_attack_steps of {a_.name}'
         for n in g2.nodes:
-            objs = [n] + [getattr(n, attr) for attr in
-                          ('children', 'parents', 'compromised_by', 'tags', 'extras', 'ttc')]
-            if isinstance(n.ttc, dict):
-                objs += [vv for vv in n.ttc.values() if isinstance(vv, (list, dict))]
+            objs = [n]
+            for attr in ('children', 'parents', 'compromised_by', 'tags', 'extras', 'ttc'):
+                objs += [v for v, _ in containers(getattr(n, attr), attr, [])]
             for x in objs:
-                if isinstance(x, (list, dict, self.AttackGraphNode)) and id(x) in orig_objs:
-                    if isinstance(x, (list, dict)) and not x and not isinstance(x, self.AttackGraphNode):
-                        # empty containers that are distinct objects never collide; a shared
-                        # empty container is still shared
-                        pass
+                if id(x) in orig_objs:
                     self.fail('C14.disjoint', f'the copy shares {orig_objs[id(x)]} with the original')
         for a_ in g2.attackers:
             for x in (a_, a_.entry_points, a_.reached_attack_steps):
@@ -1241,6 +1275,8 @@ class GraphWorld(BaseWorld):
     def do_saveload(self, op):
         import maltoolbox.file_utils as fu
         s = self.slot(op['g'])
+        if s.uncopyable:
+            raise Unresolvable()
         fmt = op['fmt']
         path = self.fresh_path('.' + fmt)
         fault = op.get('fault')
@@ -1555,6 +1591,14 @@ class GraphWorld(BaseWorld):
         elif what == 'extras':
             node.extras[val] = {'v': 1}
             rn.extras[val] = {'v': 1}
+        elif what == 'uncopyable':
+            import threading
+            node.extras['nested'] = {'list': [1, 2]}
+            node.extras['handle'] = threading.Lock()    # cannot be deep-copied, pickled or saved
+            s.uncopyable = True
+            self.count('probe:uncopyable_extras_value')
+            self._touch(s)
+            return 'ok'         # not comparable / serialisable: no reference comparison on this graph
         else:
             if not isinstance(node.ttc, dict):
                 raise Unresolvable()
